@@ -25,7 +25,17 @@
              want   [cls, ifn, dst, prio, tt, gw, src, proto, mtu]    (prio already normalised)        *)
 EXTENDS Integers, FiniteSets, Sequences, TLC
 
-VARIABLES cfg,        \* [ipv, table, defProto, devSrc, wl, special, ipip, removeExt, ownBird, allProtos, exclusive]
+\* "none" for every verdict.  "F1" / "F2" / "F3" weaken the environment assumption exactly at the trigger of one of
+\* the three confirmed defects (notes/C17.md); they are used ONLY to classify a trace that "none" has already
+\* rejected: a rejection is attributed to defect Fx iff the trace is acceptable under tolerance Fx.
+\*   F1: while a RouteReplace failure is armed on a RouteTable with conntrack cleanup, and afterwards until a full
+\*       resync, Felix's belief about the kernel may be stale (early-deleted route not forgotten);
+\*   F2: the same for an armed RouteList failure (swallowed by a per-interface resync);
+\*   F3: an interface that appears with an ifindex used before stays unknown to Felix until an event announces it
+\*       (a full resync does not help).
+CONSTANT Tol
+
+VARIABLES cfg,        \* [ipv, table, defProto, devSrc, wl, special, ipip, removeExt, ownBird, allProtos, exclusive, ct]
           kernel,     \* set of route records (at most one per key)
           links,      \* set of link records
           desired,    \* set of want records (at most one per (cls, ifn, dst, prio))
@@ -105,7 +115,9 @@ SafeKey(k1, k2, ls, K) ==
 Exact(k1, k2, ls) == \A K \in KeysOf(k1, k2) : ExactKey(k1, k2, ls, K)
 Safe(k1, k2, ls) == \A K \in KeysOf(k1, k2) : SafeKey(k1, k2, ls, K)
 
-Obliged == ~lie /\ (resyncQ \/ (~rtDirty /\ ifDirty = {}))
+Reuse(n) == "reuse:" \o n
+IsReuse(x) == \E l \in links : x = Reuse(l.name)
+Obliged == ~lie /\ (~\E x \in ifDirty : IsReuse(x)) /\ (resyncQ \/ (~rtDirty /\ ifDirty = {}))
 ApplyPost(ok, k1, k2, ls) == Obliged => (Safe(k1, k2, ls) /\ (ok => Exact(k1, k2, ls)))
 
 \* ---- actions --------------------------------------------------------------------------------------------
@@ -125,19 +137,25 @@ RouteRemove(c, n, dst, prio) ==
 
 \* environment: anything may happen to the kernel's routes / to interface `n` (and to the routes with it)
 EnvRoutes(k2) == kernel' = k2 /\ rtDirty' = TRUE /\ UNCHANGED <<cfg, links, desired, ifDirty, resyncQ, lie>>
-EnvLink(n, ls2, k2) == /\ links' = ls2 /\ kernel' = k2 /\ ifDirty' = ifDirty \cup {n}
-                       /\ UNCHANGED <<cfg, desired, rtDirty, resyncQ, lie>>
+\* `reused`: the step gave interface n an ifindex that some interface had before (only matters under Tol = "F3")
+EnvLink(n, ls2, k2, reused) ==
+    /\ links' = ls2 /\ kernel' = k2
+    /\ ifDirty' = ifDirty \cup {n} \cup (IF Tol = "F3" /\ reused THEN {Reuse(n)} ELSE {})
+    /\ UNCHANGED <<cfg, desired, rtDirty, resyncQ, lie>>
 \* an interface monitor event; it announces the interface iff it tells the present truth
 Truthful(n, idx, st) == IF st = "" THEN LinkOf(links, n) = {}
                         ELSE \E l \in LinkOf(links, n) : l.idx = idx /\ l.up = (st = "up")
 IfaceEvent(n, idx, st) ==
-    /\ ifDirty' = IF Truthful(n, idx, st) THEN ifDirty \ {n} ELSE ifDirty \cup {n}
+    /\ ifDirty' = IF Truthful(n, idx, st) THEN ifDirty \ {n, Reuse(n)} ELSE ifDirty \cup {n}
     /\ UNCHANGED <<cfg, kernel, links, desired, rtDirty, resyncQ, lie>>
 QueueResync == resyncQ' = TRUE /\ UNCHANGED <<cfg, kernel, links, desired, rtDirty, ifDirty, lie>>
 QueueResyncIface(n) == UNCHANGED vars
 \* arming netlink failures; a mock that answers "link not found" for a link that exists is lying about
 \* the interfaces: nothing is demanded while it is armed, and afterwards only a full resync repairs it
-Fail(flags) == /\ lie' = ("LinkByNameNotFound" \in flags)
+Unreliable(flags) == \/ "LinkByNameNotFound" \in flags
+                     \/ (Tol = "F1" /\ cfg.ct /\ "RouteReplace" \in flags)
+                     \/ (Tol = "F2" /\ flags \cap {"RouteList", "RouteListEINTR", "RouteListWEINTR"} # {})
+Fail(flags) == /\ lie' = Unreliable(flags)
                /\ ifDirty' = IF lie \/ lie' THEN ifDirty \cup {"*"} ELSE ifDirty
                /\ UNCHANGED <<cfg, kernel, links, desired, rtDirty, resyncQ>>
 
@@ -145,7 +163,8 @@ Fail(flags) == /\ lie' = ("LinkByNameNotFound" \in flags)
 \* before it got there, is still pending inside Felix - either way the NEXT Apply knows everything that
 \* was true now)
 ApplyFlags ==
-    /\ IF resyncQ THEN rtDirty' = FALSE /\ ifDirty' = (IF lie THEN {"*"} ELSE {}) /\ resyncQ' = FALSE
+    /\ IF resyncQ THEN /\ rtDirty' = FALSE /\ resyncQ' = FALSE
+                       /\ ifDirty' = (IF lie THEN {"*"} ELSE {}) \cup { x \in ifDirty : IsReuse(x) }
                   ELSE UNCHANGED <<rtDirty, ifDirty, resyncQ>>
     /\ UNCHANGED <<cfg, links, desired, lie>>
 Apply(ok, k2) ==
